@@ -502,7 +502,7 @@ func c02Counts(ctx *Ctx) (nTrunc, nSweep, nMulti, nIntact int) {
 	n := len(ctx.Corpus)
 	if ctx.Tier == "thorough" {
 		// every offset x all 255 other values, split into 15 slices of 17 values per file
-		return n, n * 15, 1500000, 60000
+		return n, n * 15, 6000000, 200000
 	}
 	return n, n, 24000, 4000
 }
